@@ -449,6 +449,22 @@ impl Visitor<Diagnostic> for LibraryRenderer {
         self.visit_struct_initial_value_assignment_kind(&node.init)
     }
 
+    // 2.3.3.1
+    fn visit_struct_initial_value_assignment_kind(
+        &mut self,
+        node: &StructInitialValueAssignmentKind,
+    ) -> Result<Self::Value, Diagnostic> {
+        match node {
+            StructInitialValueAssignmentKind::Structure(elements) => {
+                self.write_ws("(");
+                visit_comma_separated!(self, elements.iter(), StructureElementInit);
+                self.write_ws(")");
+                Ok(())
+            }
+            _ => node.recurse_visit(self),
+        }
+    }
+
     fn visit_array_declaration(
         &mut self,
         node: &ArrayDeclaration,
